@@ -102,8 +102,16 @@ func c01Build(base string, methods, templates []string) *c01API {
 		route := middleware.MatchedRouteFrom(r)
 		names := make([]string, len(route.Params))
 		vals := make([]string, len(route.Params))
+		seen := map[string]int{}
+		for _, p := range route.Params {
+			seen[p.Name]++
+		}
 		for i, p := range route.Params {
 			names[i], vals[i] = p.Name, p.Value
+			if seen[p.Name] == 1 {
+				// a handler usually asks by name: where the name is unique that is the same value
+				vals[i] = route.Params.Get(p.Name)
+			}
 		}
 		*last = "R " + strings.TrimPrefix(route.Operation.ID, "op") + " " + proto.L(names) + " " + proto.L(vals)
 		w.WriteHeader(http.StatusNoContent)
